@@ -404,7 +404,9 @@ def spec_check(c, obs):
             if merged and prev is not None:
                 pD = set(prev["d"][vi][0])
                 pT = set(prev["t"][vi][0])
-                fresh = T - (pT | pD)
+                # law P3 in the form the semi-naive argument needs: a tuple readable from total after the merge was readable
+                # from total or delta before it, or is served by delta NOW (then the delta variants of this iteration cover it)
+                fresh = T - (pT | pD | D)
                 if fresh:
                     known = None
                     refl = all(t[-1] == t[-2] for t in fresh)
